@@ -147,6 +147,47 @@ theorem handshake_completes (sc : Sched) (tape : List Side) (post : Nat) (hlim :
   simp only [hall.2, if_true] at hts
   exact ⟨hdone, htc.1.res, hts.1.res, w.nopanic⟩
 
+/-- **when `connect` / `accept` return, every handshake byte this side produced has been handed to the
+transport AND flushed - for both roles.** In the final state of `handshake_completes`, for the client
+(`TlsConnector::connect`) and for the server (`TlsAcceptor::accept`) alike: the handshake future is `done`, the
+engine has no handshake or post-handshake cell left to write, and the endpoint's transport buffer is empty.
+The tape is arbitrary (`HasSC`): in a TLS 1.3 shaped handshake the *client* writes the last message (its
+Finished, written while `OpensslInner::poll_flush` is still a no-op and followed by no read), in a TLS 1.2
+shaped one the *server* does - the post-handshake flush of the shared `handshake()` driver is what empties the
+buffer in either case (seed C15-4a removed it for the client). -/
+theorem handshake_returns_flushed_both_roles (sc : Sched) (tape : List Side) (post : Nat) (hlim : 1 ≤ sc.lim)
+    (hdir : sc.astream = false) (hwf : HasSC tape) (hfuel : tape.length + post + 2 < sc.fuel) :
+    let y := (run (hsBound sc tape post) (Sys.init sc false tape post [] [])).1
+    (∃ oc, y.c.s = .ossl .done oc ∧ oc.me = .client ∧ oc.tape = [] ∧ oc.post = 0 ∧ y.tpC.wbuf.toList = []) ∧
+    (∃ os, y.s.s = .ossl .done os ∧ os.me = .server ∧ os.tape = [] ∧ os.post = 0 ∧ y.tpS.wbuf.toList = []) := by
+  intro y
+  obtain ⟨hinv, hphi⟩ := init_inv sc tape post hlim hdir hwf hfuel
+  obtain ⟨_, hinv', hall⟩ := run_done (hsBound sc tape post) _ hinv hphi
+  obtain ⟨fc, oc, fs, os, a, b, a', b', w⟩ := hinv'
+  simp only [Sys.allDone, Bool.and_eq_true] at hall
+  have htc := w.tc
+  have hts := w.ts
+  simp only [hall.1, if_true] at htc
+  simp only [hall.2, if_true] at hts
+  have hpc := w.phC
+  have hps := w.phS
+  rw [htc.2] at hpc
+  rw [hts.2] at hps
+  exact ⟨⟨oc, htc.1.s, w.mec, hpc.1, hpc.2.1, hpc.2.2⟩, ⟨os, hts.1.s, w.mes, hps.1, hps.2.1, hps.2.2⟩⟩
+
+/-- the per-poll form, with the role explicit: whichever role the endpoint plays, the poll in which
+`handshake()` resolves leaves nothing of the handshake in the engine and nothing in the transport buffer -/
+theorem handshake_ready_flushed_role (role : Side) {sc : Sched} {p : Peer} {b' : Nat} {fut : HsFut} {o : Ossl}
+    {v : View} (_hrole : o.me = role) (hr : Rest sc p b' fut o v) (hfuel : o.tape.length + o.post < sc.fuel)
+    (hne : fut ≠ .done)
+    (hnd : fut = .start → (sslDoHandshake sc sc.fuel { o with ctx := true } v).2.2 ≠ .ok ())
+    {fut' : HsFut} {o' : Ossl} {v' : View} (h : pollHandshake sc fut o v = (fut', o', v', .ready ())) :
+    o'.me = role ∧ fut' = .done ∧ o'.tape = [] ∧ o'.post = 0 ∧ v'.tp.wbuf.toList = [] := by
+  have hs := pollHandshake_spec hr hfuel hne hnd
+  rw [h] at hs
+  obtain ⟨f1, f2, f3, f4⟩ := handshake_ready_flushed hr hfuel hne hnd h
+  exact ⟨hs.me.trans _hrole, f1, f2, f3, f4⟩
+
 /-- more fuel for the executor changes nothing (the bound is sufficient, not tuned) -/
 theorem handshake_completes_any_fuel (sc : Sched) (tape : List Side) (post : Nat) (hlim : 1 ≤ sc.lim)
     (hdir : sc.astream = false) (hwf : HasSC tape) (hfuel : tape.length + post + 2 < sc.fuel)
@@ -380,5 +421,14 @@ example :
     (match r1.2.2 with | .pending .self => true | _ => false) = true ∧ r1.1.nextItem = some ⟨.ping, [1, 2]⟩ ∧
     (match r2.2.2 with | .ready f => f == ⟨.ping, [1, 2]⟩ | _ => false) = true ∧
     r2.2.1.tx = [⟨.pong, [1, 2]⟩] := by decide
+
+/-- client writes last (TLS 1.3 shape) and server writes last (TLS 1.2 shape), buffering transport with every
+call delayed: both runs end with both transport buffers empty -/
+example :
+    let sc : Sched := ⟨2, true, false, 1, 1, 2, 1, 100⟩
+    let y13 := (run 400 (Sys.init sc false [.client, .server, .server, .client] 1 [] [])).1
+    let y12 := (run 400 (Sys.init sc false [.client, .server, .client, .client, .server] 0 [] [])).1
+    y13.c.res = [.ok 0] ∧ y13.s.res = [.ok 0] ∧ y13.tpC.wbuf.toList = [] ∧ y13.tpS.wbuf.toList = [] ∧
+    y12.c.res = [.ok 0] ∧ y12.s.res = [.ok 0] ∧ y12.tpC.wbuf.toList = [] ∧ y12.tpS.wbuf.toList = [] := by decide
 
 end Compio.Props.C15
